@@ -306,6 +306,17 @@ def check_cancel_syscall(rep, cross):
         return
     ex.auto_havoc = True
     ex.auto_frames = {'Interpreter': {F[n] for n in ledger.LEDGER}}
+
+    def h_contains(e, s, c):
+        from emir.models import deref
+        v = deref(e, s, c.args[0])
+        if not isinstance(v, AbsVec):
+            return None
+        b = z3.Bool('already_cancelled')
+        s.event('contains', b)
+        e.havoc_used.add('[T]::contains on the abstract cancelled list: an arbitrary answer (recorded)')
+        return e.ret(s, c, Bool(b))
+    ex.overrides.append((re.compile(r'^slice::contains$|^Vec::contains$'), h_contains))
     st = State()
     a, sym = ledger.fresh_interp(ex, st, F)
     nxt = z3.BitVec('next_order_id', 64)
@@ -336,21 +347,34 @@ def check_cancel_syscall(rep, cross):
             pv = pushes[0][2]
             pid = pv.fields[0].e if isinstance(pv, Agg) and 0 in pv.fields else None
             conds.append(z3.fpEQ(z3.fpUnsignedToFP(z3.RNE(), pid, F64), x) if pid is not None else z3.BoolVal(False))
-        g = z3.Implies(allocated, z3.And(conds))
+        # ids that were never handed out (0, or >= next_order_id) name no order: nothing may be reported to the host for them
+        never = z3.And(z3.fpEQ(x, z3.fpRoundToIntegral(z3.RTZ(), x)), z3.Or(z3.fpEQ(x, z3.FPVal(0.0, F64)), z3.And(z3.fpGEQ(x, z3.fpUnsignedToFP(z3.RNE(), nxt, F64)), z3.fpLT(x, z3.FPVal(2.0 ** 52, F64)))))
+        asked = [ev[1] for ev in e.st.events if ev[0] == 'contains']
+        dup = asked[0] if asked else z3.BoolVal(False)       # the id is already in the list that will be handed to the host
+        g = z3.And(z3.Implies(z3.And(allocated, z3.Not(dup)), z3.And(conds)), z3.Implies(z3.Or(never, dup), z3.BoolVal(len(pushes) == 0)))
         r, m = ex.check_sat_pc(e.st.pc, [z3.Not(g)])
-        what = 'cancel_order_syscall path %d: an allocated order id is appended to cancelled_orders exactly once' % k
+        what = 'cancel_order_syscall path %d: an allocated order id not yet in the list is appended to cancelled_orders exactly once; an id that was never handed out, or is already listed, not at all' % k
         rep.obligation(what, r, 'any number argument, any next_order_id < 2^52, any ledger', 0.0)
         if r == 'unsat':
             cross.append((what, list(e.st.pc) + [z3.Not(g)], 'unsat'))
-        elif not rep.seen('C08/cancel_order_syscall/cancellation-dropped'):
-            idc = m.eval(x, model_completion=True)
+        else:
+            r_s, m_s = ex.check_sat_pc(e.st.pc, [z3.Not(g), z3.ULE(nxt, 8), z3.fpLEQ(x, z3.FPVal(16.0, F64)), z3.fpGEQ(x, z3.FPVal(0.0, F64))])   # a readable counterexample if there is one
+            if r_s == 'sat':
+                m = m_s
+            xv = float(str(m.eval(x, model_completion=True)).replace('*(2**', 'e').replace(')', '')) if False else m.eval(x, model_completion=True)
             nv = m.eval(nxt, model_completion=True).as_long()
-            outs = driver.replay(replay_requests())
-            rep.validated += len(outs)
-            bad = [o.get('protocol_violation') for o in outs if o.get('protocol_violation')]
-            p = rep.write_replay('cancel-syscall', {'id': str(idc), 'next_order_id': nv, 'pushes': len(pushes), 'scripted_host_runs_with_violations': bad})
-            rep.violation('C08/cancel_order_syscall/cancellation-dropped', '__cancelOrder__(%s) with next_order_id = %d records %d cancellations (expected exactly one)%s' % (
-                idc, nv, len(pushes), '; scripted host: %r' % (bad[:1],) if bad else ''), p)
+            is_never = z3.is_true(m.eval(never, model_completion=True))
+            key = 'C08/cancel_order_syscall/never-issued-id-reported' if is_never else 'C08/cancel_order_syscall/cancellation-dropped'
+            if not rep.seen(key):
+                base = 'import { order, __cancelOrder__ } from "tsrun:host";\n'
+                wit = [{'cmd': 'order_trace', 'src': base + '__cancelOrder__(99); const a = await order({k:1}); a'}] if is_never else replay_requests()
+                outs = driver.replay(wit)
+                rep.validated += len(outs)
+                bad = [o.get('protocol_violation') for o in outs if o.get('protocol_violation')]
+                p = rep.write_replay('cancel-syscall', {'id': str(xv), 'next_order_id': nv, 'pushes': len(pushes), 'never_issued': is_never, 'scripted_host_runs_with_violations': bad})
+                rep.violation(key, '__cancelOrder__(%s) with next_order_id = %d records %d cancellation(s); %s%s' % (
+                    xv, nv, len(pushes), 'that id was never handed out, nothing may be reported to the host' if is_never else 'an allocated id must be recorded exactly once',
+                    '; scripted host: %r' % (bad[:1],) if bad else ''), p)
     if n == 0:
         rep.inconc('cancel_order_syscall: no path reaches a return (vacuity)')
     rep.vacuity.append('cancel_order_syscall: %d return paths' % n)
